@@ -16,12 +16,19 @@ Definition start_world (im : imm) (pre : list bool) (sets : list (list nat)) : w
                    (combine im pre);
      w_sets := sets; w_rng := 0; w_static := static0 |}.
 
+(* "0110" -> [0;1;1;0] : one thread index per step *)
+Fixpoint digits (s : string) : list nat :=
+  match s with
+  | EmptyString => []
+  | String c r => (nat_of_ascii c - 48)%nat :: digits r
+  end.
+
 Inductive c20case :=
 (* a schedule: one thread index per line-step; expected label of every step,
    expected result of every thread, expected final state of every key *)
 | CSched (fixed : bool) (im : imm) (pre : list bool) (sets : list (list nat)) (picks : list nat)
-         (setup : list call) (calls : list call) (sched : list nat)
-         (labels : list string) (results : list (res pv)) (finals : list (bool * bool * bool)) (draws : N)
+         (setup : list call) (calls : list call) (sched : string)
+         (labels : string) (results : list (res pv)) (finals : list (bool * bool * bool)) (draws : N)
 (* a sequential history on one world: the calls run one after another *)
 | CSeq (fixed : bool) (im : imm) (pre : list bool) (sets : list (list nat)) (picks : list nat)
        (calls : list call) (results : list (res pv)) (finals : list (bool * bool * bool)) (draws : N).
@@ -55,7 +62,7 @@ Definition c20_out (c : c20case) : list string * list (option (res pv)) * list (
   | CSched fx im pre sets picks setup calls sched _ _ _ _ =>
       let ps := map (compile fx im (pick_of picks)) calls in
       let '(w0, _) := seq_all im (start_world im pre sets) (map (compile fx im (pick_of picks)) setup) in
-      let '(w, ts, tr) := run_sched im sched w0 ps in
+      let '(w, ts, tr) := run_sched im (digits sched) w0 ps in
       (map ev_lbl tr, map result_of ts, map key_final (w_keys w), w_rng w)
   | CSeq fx im pre sets picks calls _ _ _ =>
       let ps := map (compile fx im (pick_of picks)) calls in
@@ -67,7 +74,7 @@ Definition c20_check (c : c20case) : bool :=
   let '(lbls, rs, fin, dr) := c20_out c in
   match c with
   | CSched _ _ _ _ _ _ _ _ labels results finals draws =>
-      list_eqb String.eqb lbls labels && list_eqb2 opt_res_eqb rs results
+      String.eqb (String.concat " " lbls) labels && list_eqb2 opt_res_eqb rs results
       && list_eqb b3_eqb fin finals && (dr =? draws)
   | CSeq _ _ _ _ _ _ results finals draws =>
       list_eqb2 opt_res_eqb rs results && list_eqb b3_eqb fin finals && (dr =? draws)
